@@ -361,8 +361,9 @@ def main():
     for k, cnt in sorted(known_hits.items()):
         what = kf.get(k, {}).get("what", "")
         if not what:
+            import fnmatch
             for kk, vv in kf.items():
-                if kk.endswith("*") and k.startswith(kk[:-1]):
+                if "*" in kk and fnmatch.fnmatchcase(k, kk.replace("[", "[[]")):
                     what = vv.get("what", "")
         print("KNOWN-FINDING: property=%s key=%s hits=%d %s" % (pid, k, cnt, what))
     print("EVIDENCE property=%s tier=%s evaluations=%d distinct_nontrivial=%d wall=%.1fs" % (pid, tier, cov["evaluations"], cov["distinct_nontrivial"], time.time() - t0))
